@@ -520,6 +520,8 @@ FUNCTIONS = [
         header=r'operator\(\)\(\s*string_helper str,\s*T const&\)\s*const',
         lean_sig='(str_not_null : Bool) (regex_search : Bool) : Bool',
         expr_rules=[(r'^str$', 'str_not_null'), (r'^std::regex_search\(str\.begin\(\), str\.end\(\), re, match_type\)$', 'regex_search')],
+        count=[(r'\boperator\s*\(\s*\)\s*\(', 2, 'regex_check and regex_printer define one call operator each, so every kind of string '
+                'argument takes the translated path, match flags included')],
     ),
     dict(
         name='string_helper_bool', cxx='regex_check::string_helper::operator bool', file='include/trompeloeil/matcher/re.hpp', module='StringHelperBool',
